@@ -46,9 +46,9 @@ Definition tok_eqb (a b : tok) : bool :=
   | _, _ => false
   end.
 Definition relex_ok (c : bool * expr * bytes) : bool :=
-  let '(_, e, out) := c in
+  let '(mw, e, out) := c in
   match lex out with
-  | Some ts => list_eqb tok_eqb ts (toks (print_items LLowest e))
+  | Some ts => list_eqb tok_eqb ts (toks (print_items mw LLowest e))
   | None => false
   end.
 Definition check_relex := mismatches relex_ok.
@@ -63,7 +63,9 @@ Fixpoint expr_eqb (a b : expr) : bool :=
   | EUn o1 v1, EUn o2 v2 => op_eqb o1 o2 && expr_eqb v1 v2
   | EBin o1 l1 r1, EBin o2 l2 r2 => op_eqb o1 o2 && expr_eqb l1 l2 && expr_eqb r1 r2
   | ECond c1 y1 n1, ECond c2 y2 n2 => expr_eqb c1 c2 && expr_eqb y1 y2 && expr_eqb n1 n2
-  | EIndex t1 i1, EIndex t2 i2 => expr_eqb t1 t2 && expr_eqb i1 i2
+  | EIndex t1 i1, EIndex t2 i2 | ECall t1 i1, ECall t2 i2 | ENew t1 i1, ENew t2 i2 | ACons t1 i1, ACons t2 i2 =>
+      expr_eqb t1 t2 && expr_eqb i1 i2
+  | ANil, ANil => true
   | _, _ => false
   end.
 Definition reparse_ok (c : bool * expr * bytes) : bool :=
